@@ -406,6 +406,29 @@ theorem tie_ResolveApk : Generated.stmts_ResolveApk =
      "return resolved, nil"] := rfl
 
 
+/-- `cachePackage` = `cacheData` (and `Authentic.cachePackage`): control, signature, `.tar.gz`, and LAST the `.tar`, each
+through `AdvertiseCachedFile` (first writer wins) -/
+theorem tie_cachePackage_advertises : Generated.cachePackageAdvertises =
+    ["exp.ControlFile -> ctlDst", "exp.SignatureFile -> sigDst", "exp.PackageFile -> datDst", "exp.TarFile -> tarDst"] := rfl
+
+/-- … under the hex of the computed hashes; the `.tar` has the name of the `.tar.gz` without `.gz` -/
+theorem tie_cachePackage_names : Generated.cachePackageNames =
+    ["ctlHex := hex.EncodeToString(exp.ControlHash)",
+     "ctlDst := filepath.Join(cacheDir, ctlHex+\".ctl.tar.gz\")",
+     "sigDst := filepath.Join(cacheDir, ctlHex+\".sig.tar.gz\")",
+     "datHex := hex.EncodeToString(exp.PackageHash)",
+     "datDst := filepath.Join(cacheDir, datHex+\".dat.tar.gz\")",
+     "tarDst := strings.TrimSuffix(exp.PackageFile, \".gz\")"] := rfl
+
+/-- `cachedPackage`, data part = `cachedData`: the `.tar.gz` named by the datahash, the `.tar` next to it through
+`PackageData()`, indexed as it is -/
+theorem tie_cachedPackage_data : Generated.cachedPackageData =
+    ["dat := filepath.Join(cacheDir, datahash+\".dat.tar.gz\")",
+     "exp.PackageFile = dat",
+     "exp.TarFile = strings.TrimSuffix(exp.PackageFile, \".gz\")",
+     "data, err := exp.PackageData()",
+     "exp.TarFS, err = tarfs.New(data, info.Size())"] := rfl
+
 /-! ### after the loop -/
 
 theorem build_ok (G : Gz) (st : St) (sig : Option (Bytes × Digest)) (c d : Bytes) (hc hd : Digest) (o : Out)
@@ -801,6 +824,78 @@ theorem install_authentic_stream (G : Gz) (H : Hashes) (hloc : G.Local) (hx : He
       exact hpart
 
 
+/-! ### the `.dat.tar` of the cache -/
+
+theorem lookup_advertise_ne {α : Type} (k k2 : Text) (v : α) (l : List (Text × α)) (h : k2 ≠ k) :
+    lookup k2 (advertise k v l) = lookup k2 l := by
+  unfold advertise
+  cases hl : lookup k l with
+  | some w => rfl
+  | none =>
+    simp only [lookup]
+    rw [if_neg (fun h' : k = k2 => h h'.symm)]
+
+theorem datInv_empty (G : Gz) : DatInv G {} := by
+  intro n t h; simp [lookup] at h
+
+/-- a cache hit hands out the gunzip of the `.tar.gz` of that name, and leaves the invariant in place — on both paths of
+`PackageData()` -/
+theorem cachedData_gunzip (G : Gz) (name : Digest) (c c2 : DatCache) (t : Bytes) (hinv : DatInv G c)
+    (h : cachedData G name c = some (t, c2)) :
+    (∃ d, lookup name c2.gz = some d ∧ gunzipAll G d = some t) ∧ DatInv G c2 := by
+  unfold cachedData at h
+  split at h
+  · cases h
+  · next d hd =>
+    split at h
+    · next t0 ht0 => cases h; exact ⟨hinv name t ht0, hinv⟩
+    · next hnone =>
+      split at h
+      · cases h
+      · next t0 hg =>
+        cases h
+        refine ⟨⟨d, hd, hg⟩, ?_⟩
+        intro n t1 h1
+        simp only [lookup] at h1
+        split at h1
+        · next hn => cases h1; subst hn; exact ⟨d, hd, hg⟩
+        · exact hinv n t1 h1
+
+/-- the full statement: `cachePackage` keeps the invariant whatever is in the cache already -/
+def DatInvPreserved : Prop :=
+  ∀ (G : Gz) (c : DatCache) (name : Digest) (gzFile tarFile : Bytes),
+    DatInv G c → gunzipAll G gzFile = some tarFile → DatInv G (cacheData name gzFile tarFile c)
+
+/-- proved part: when the `.tar.gz` already advertised under the name (if any) is the one being cached — the names are
+SHA-256 digests, so this is collision freedom for that one name -/
+theorem tar_cache_inv_preserved_partial (G : Gz) (c : DatCache) (name : Digest) (gzFile tarFile : Bytes)
+    (hinv : DatInv G c) (hg : gunzipAll G gzFile = some tarFile)
+    (hsame : ∀ d, lookup name c.gz = some d → d = gzFile) :
+    DatInv G (cacheData name gzFile tarFile c) := by
+  intro n t h
+  by_cases hn : n = name
+  · subst hn
+    have hgz : lookup n (advertise n gzFile c.gz) = some gzFile := by
+      cases hl : lookup n c.gz with
+      | none => simp [advertise, hl, lookup]
+      | some d => simp [advertise, hl]; exact hsame d hl
+    refine ⟨gzFile, hgz, ?_⟩
+    simp only [cacheData] at h
+    cases hl : lookup n c.tar with
+    | none =>
+      simp [advertise, hl, lookup] at h
+      rw [← h]; exact hg
+    | some t0 =>
+      simp [advertise, hl] at h
+      subst h
+      obtain ⟨d, hd, hgd⟩ := hinv n t0 hl
+      rw [hsame d hd] at hgd
+      exact hgd
+  · simp only [cacheData] at h ⊢
+    rw [lookup_advertise_ne name n tarFile c.tar hn] at h
+    obtain ⟨d, hd, hgd⟩ := hinv n t h
+    exact ⟨d, by rw [lookup_advertise_ne name n gzFile c.gz hn]; exact hd, hgd⟩
+
 /-! ### witnesses: the hypotheses are satisfiable; what a larger read, and the pinned end of the loop, do -/
 
 /-- a toy gzip: a member is `7, x, y` and decompresses to `x, y`; a toy tar: a section that starts with `1` has a
@@ -879,6 +974,27 @@ theorem read_ahead_hashes_beyond_control :
       expandStream toyG toyH Impl.slowChunk true [7,2,2, 7,3,3, 7,5,5] = .ok o1 ∧
       o1.controlHash = toyH.sha1 [7,2,2] ∧ o1.packageHash = toyH.sha256 [7,3,3, 7,5,5] := by
   refine ⟨_, _, _, rfl, rfl, ?_, ?_, ?_, ?_, ?_, rfl, ?_, ?_⟩ <;> decide
+
+/-- without collision freedom the full statement is false: a `.tar.gz` under the name, no `.tar` (a cache written before
+the `.tar` existed, or an interrupted `cachePackage`: C19), then another data section with the same digest: its `.tar`
+is advertised next to the other one's `.tar.gz` -/
+theorem tar_cache_inv_needs_collision_freedom : ¬ DatInvPreserved := by
+  intro h
+  have := h toyG { gz := [("n".toList, [7,5,5])], tar := [] } "n".toList [7,4,4] [4,4]
+    (by intro n t ht; simp [lookup] at ht) (by decide) "n".toList [4,4] (by decide)
+  obtain ⟨d, hd, hg⟩ := this
+  revert hd hg
+  simp [cacheData, advertise, lookup]
+  intro hd; subst hd; decide
+
+/-- the hypotheses of the partial statement are satisfiable: a first expansion into an empty cache, a hit, the `.tar`
+removed and regenerated -/
+example : DatInv toyG (cacheData "n".toList [7,5,5, 7,4,4] [5,5,4,4] {}) ∧
+    cachedData toyG "n".toList (cacheData "n".toList [7,5,5, 7,4,4] [5,5,4,4] {}) =
+      some ([5,5,4,4], cacheData "n".toList [7,5,5, 7,4,4] [5,5,4,4] {}) ∧
+    (cachedData toyG "n".toList { gz := [("n".toList, [7,5,5, 7,4,4])], tar := [] }).map (·.1) = some [5,5,4,4] :=
+  ⟨tar_cache_inv_preserved_partial toyG {} _ _ _ (datInv_empty toyG) (by decide) (by intro d hd; simp [lookup] at hd),
+   by decide, by decide⟩
 
 /-- `Split` on the signed toy package -/
 example : splitParts toyG [7,1,0, 7,2,2, 7,5,5, 7,4,4] = .ok [[7,1,0], [7,2,2], [7,5,5, 7,4,4]] := rfl
